@@ -363,7 +363,7 @@ def random_value(t: T, rng, N):
     raise TypeError(str(t))
 
 
-def random_search(key, variant=None, budget=150, seed=0, N=4):
+def random_search(key, variant=None, budget=80, seed=0, N=4, wall_s=40):
     """short bounded search around one function: random small real inputs, ghost state completed by the
     solver, real code run, contract evaluated on the outcome.  Returns (input, replay result) or None."""
     import random as _r
@@ -379,8 +379,10 @@ def random_search(key, variant=None, budget=150, seed=0, N=4):
     if cls and cls in REG.classes:
         ghost = {f"self.{g}" for g in REG.classes[cls].ghost}
     tried = 0
+    import time as _t
+    t_end = _t.time() + wall_s
     for _ in range(budget * 6):
-        if tried >= budget:
+        if tried >= budget or _t.time() > t_end:
             break
         cex = {}
         try:
